@@ -355,6 +355,14 @@ theorem C07_quit_outcome_means_quit (cfg : Cfg) (hser : cfg.serialised = true) (
       rcases hg with ⟨_, e⟩ | ⟨_, e, _⟩ <;> simp [e, Pc.sent] at hn <;> omega
   · simp at hs
 
+/-- a caller parked in writeContext's first select (waiting for the semaphore / for the flusher to take its request) can
+    leave as soon as quit is closed, with `(0, closed)` and without a byte: nobody is left parked there by a shutdown -/
+theorem C07_waiting_sees_quit (cfg : Cfg) (s : St) (w : Nat) (hq : s.quit = true) (hw : s.pc w = .waiting) :
+    ∃ s', step cfg s (.quit w) = some s' ∧ s'.pc w = .wrote 0 false ∧ s'.wire = s.wire := by
+  refine ⟨{ s with pc := setPc s.pc w (.wrote 0 false), queue := s.queue.filter (· ≠ w) }, ?_, by simp [setPc_same], rfl⟩
+  simp only [step]
+  rw [if_pos (Or.inl ⟨hq, hw⟩)]
+
 /-- every caller gets exactly ONE outcome: once `writeContext`'s result `(n, err == nil)` is determined it never changes,
     whatever happens afterwards (ticks, quit, the flusher's quit branch, the socket closing, ...) -/
 theorem C07_outcome_final (cfg : Cfg) (hser : cfg.serialised = true) (as bs : List Act) (s s' : St)
